@@ -262,6 +262,9 @@ def monitor_case(ops, obs, which):
                 break
         # ---- file operations (C05 / C09)
         op = t[0]
+        if op == "crashcheck" and r == "ok" and o.get("ce") == "0":
+            V("C06", "boundary-crash", f"killed after {ops[i-1].strip() if i > 0 else 'creation'}: the file as it is now reopens to a different arena than the running one (open: {o.get('cr')})", i)
+            V("C05", "boundary-crash", f"killed after {ops[i-1].strip() if i > 0 else 'creation'}: the file as it is now reopens to a different arena than the running one (open: {o.get('cr')})", i)
         if op == "close" and r == "ok":
             fstate["closed"] = True
             if fstate["mode"] in (None, "mut"):   # only a shared writable session leaves its state in the file
